@@ -1134,6 +1134,9 @@ STMT_WORDS = [b"DROP", b"CREATE", b"ANALYZE", b"TABLE", b"INDEX", b"SEARCH", b"V
 # the vocabulary of RENAME TABLE / GRANT / REVOKE (sequences of it are generated separately: the products stay small)
 PRIV_WORDS = [b"GRANT", b"REVOKE", b"RENAME", b"TABLE", b"SELECT", b"INSERT", b"UPDATE", b"DELETE", b"EXECUTE", b"FUNCTION", b"ROLE", b"ON", b"TO", b"FROM", b"VIEW", b"CHANGE",
               b"STREAM", b",", b"(", b")", b"a", b"`b c`", b";", b"1"]
+# the vocabulary of CREATE / ALTER PROTO BUNDLE, ALTER INDEX, ALTER SEARCH INDEX
+ALTER_WORDS = [b"ALTER", b"CREATE", b"PROTO", b"BUNDLE", b"INSERT", b"UPDATE", b"DELETE", b"INDEX", b"SEARCH", b"ADD", b"DROP", b"STORED", b"COLUMN", b"(", b")", b",", b".",
+               b"a", b"a.b", b"`c d`", b";", b"TABLE"]
 STMT_VALID = ["DROP SCHEMA s", "DROP LOCALITY GROUP g", "DROP PROTO BUNDLE", "DROP TABLE t", "DROP TABLE IF EXISTS a.b.c", "DROP INDEX i", "DROP INDEX IF EXISTS s.i",
               "DROP SEARCH INDEX i", "DROP SEARCH INDEX IF EXISTS i", "DROP VECTOR INDEX v", "DROP VECTOR INDEX IF EXISTS v", "DROP SEQUENCE s", "DROP SEQUENCE IF EXISTS a.s",
               "DROP VIEW v", "DROP VIEW a.v", "DROP ROLE r", "DROP CHANGE STREAM cs", "DROP MODEL m", "DROP MODEL IF EXISTS m", "DROP PROPERTY GRAPH g",
@@ -1143,7 +1146,11 @@ STMT_VALID = ["DROP SCHEMA s", "DROP LOCALITY GROUP g", "DROP PROTO BUNDLE", "DR
               "GRANT INSERT , UPDATE ( a ) ON TABLE t TO ROLE r", "GRANT SELECT ON VIEW v , w TO ROLE r", "GRANT EXECUTE ON TABLE FUNCTION f , g TO ROLE r",
               "GRANT ROLE a , b TO ROLE c", "GRANT SELECT ON CHANGE STREAM cs , ds TO ROLE r", "REVOKE SELECT ON TABLE t FROM ROLE r",
               "REVOKE ROLE a FROM ROLE b , c", "REVOKE EXECUTE ON TABLE FUNCTION f FROM ROLE r", "REVOKE SELECT ON VIEW v FROM ROLE r",
-              "REVOKE DELETE ON TABLE t FROM ROLE r", "grant select ( `a b` ) on table `t` to role `r`"]
+              "REVOKE DELETE ON TABLE t FROM ROLE r", "grant select ( `a b` ) on table `t` to role `r`",
+              "CREATE PROTO BUNDLE ( a.b , c )", "CREATE PROTO BUNDLE ( a )", "ALTER PROTO BUNDLE", "ALTER PROTO BUNDLE INSERT ( a )",
+              "ALTER PROTO BUNDLE INSERT ( a ) UPDATE ( b.c , d ) DELETE ( e )", "ALTER PROTO BUNDLE UPDATE ( a ) DELETE ( b )", "ALTER PROTO BUNDLE DELETE ( `a b`.c )",
+              "ALTER INDEX i ADD STORED COLUMN c", "ALTER INDEX s.i DROP STORED COLUMN c", "ALTER SEARCH INDEX i ADD STORED COLUMN c",
+              "ALTER SEARCH INDEX i DROP STORED COLUMN `c d`", "alter index a.b.c add stored column d"]
 
 
 def stmt_family_cases(rnd, quick):
@@ -1154,6 +1161,16 @@ def stmt_family_cases(rnd, quick):
     for n in range(0, (3 if quick else 4) + 1):
         for seq in itertools.product(STMT_WORDS, repeat=n):
             single.add(b" ".join(seq))
+    for n in range(1, 4):
+        for seq in itertools.product(ALTER_WORDS, repeat=n):
+            single.add(b" ".join(seq))
+            if n == 3:
+                single.add(b"ALTER PROTO BUNDLE " + b" ".join(seq))
+                single.add(b"ALTER INDEX " + b" ".join(seq) + b" COLUMN c")
+                if not quick:
+                    single.add(b"ALTER PROTO BUNDLE INSERT ( a " + b" ".join(seq))
+                    single.add(b"CREATE PROTO BUNDLE ( " + b" ".join(seq))
+                    single.add(b"ALTER SEARCH INDEX " + b" ".join(seq) + b" c")
     for n in range(1, 4):
         for seq in itertools.product(PRIV_WORDS, repeat=n):
             single.add(b" ".join(seq))
